@@ -294,6 +294,7 @@ class Workspace:
 
 
 # ------------------------------------------------------------------------------------------------
+ZERO_OK_PKGS = {"sync", "sync/atomic"}
 PROG = None
 INIT = None
 OPTS = None
@@ -303,9 +304,15 @@ def run_init(prog, pkgs, opts):
     ex = X.Executor(prog, IC.I, None, opts)
     ex.install_env()
     ex.globals = {}
+    from .models import GLOBAL_OVERRIDES
     for name, gl in prog.globals.items():
         et = prog.types[gl["type"]]["elem"]
-        ex.globals[name] = [prog.zero(et)]
+        if name in GLOBAL_OVERRIDES:
+            ex.globals[name] = [GLOBAL_OVERRIDES[name]()]
+        elif gl["pkg"] in prog.inits or gl["pkg"] in ZERO_OK_PKGS:
+            ex.globals[name] = [prog.zero(et)]
+        else:
+            ex.globals[name] = [Poison("global %s of a package whose init is not executed" % name)]
     ex.init_mode = True
     ex.max_instrs = 50_000_000
     for pkg in pkgs:
